@@ -6,6 +6,7 @@ Side-car format (line oriented):
     @ret <name>                 name the return value:  -> T   becomes  -> (name: T)
     @spec                       lines inserted between signature and body `{`
     @loop <k>                   lines inserted between the k-th loop header and its `{`  (k from 1)
+    @loop_iter <k> <name>       ghost name for the iterator of the k-th loop (a `for`):  for x in <name>: range
     @before_loop <k>            statements inserted before the k-th loop
     @after <text>               statements inserted after the statement that contains <text>
                                 (whitespace-insensitive, must be unique in the fn)
@@ -44,7 +45,7 @@ def parse_sidecar(text):
             blocks.append(cur)
             sec = None
             continue
-        if line.startswith("@") and not line.startswith("@@") and cur is not None and re.match(r"@(ret|spec|loop|before_loop|after|before|body_start|end|attr|loop_end|loop_body|field_init)\b", line):
+        if line.startswith("@") and not line.startswith("@@") and cur is not None and re.match(r"@(ret|spec|loop|before_loop|after|before|body_start|end|attr|loop_end|loop_body|loop_iter|field_init)\b", line):
             m = re.match(r"@(\w+)\s*(.*)$", line)
             sec = {"kind": m.group(1), "arg": m.group(2).strip(), "lines": []}
             cur["secs"].append(sec)
@@ -208,14 +209,22 @@ def merge_into(ix, ed, sidecar_text, report=None):
                         ed.insert(st[f.i_end].s, "\n" + body)
                 elif kind == "attr":
                     ed.insert(st[f.i_attr].s, body)
-                elif kind in ("loop", "before_loop", "loop_end", "loop_body"):
+                elif kind in ("loop", "before_loop", "loop_end", "loop_body", "loop_iter"):
                     if loops is None:
                         loops = ix.loops_in(f)
-                    k = int(arg)
+                    k = int(arg.split()[0])
                     if k < 1 or k > len(loops):
                         raise Lost("%s has %d loops, contract names loop %d" % (f.key, len(loops), k))
                     i_kw, i_brace = loops[k - 1]
-                    if kind == "loop":
+                    if kind == "loop_iter":
+                        # ghost name for the iterator of a `for` loop:  for x in NAME: range
+                        if st[i_kw].t != "for":
+                            raise Lost("@loop_iter on a loop that is not a for loop in %s" % f.key)
+                        j = i_kw + 1
+                        while st[j].t != "in":
+                            j += 1
+                        ed.insert(st[j].e, " %s:" % arg.split()[1])
+                    elif kind == "loop":
                         ed.insert(st[i_brace].s, "\n" + body)
                     elif kind == "before_loop":
                         ed.insert(st[i_kw].s, body)
